@@ -8,6 +8,7 @@ import Larking.Lemmas.Routes
 import Larking.Lemmas.VarIndexComplete
 import Larking.Lemmas.LiteralRoute
 import Larking.Lemmas.Commute
+import Larking.Lemmas.PatternText
 /-
   C02 — Routing completeness, literal-over-wildcard precedence, order independence.
 -/
@@ -311,6 +312,45 @@ theorem two_bindings_commute (g : Bytes → List Tok) (s1 s2 : Step) (t a ab : N
       addBinding Gen.tokenCap s1.resolve b s1.b s1.mid = .ok ab :=
   addBinding_swap Gen.tokenCap g s1 s2 t a ab hg1 hg2 hd h1 h2
 
+/-- a binding of the documented grammar (as `grammar_templates_lex` reads it), within the token array,
+its field paths resolving, its runes spelled as UTF-8 spells them ('*' and '/' in ASCII; the bytes
+of a literal rune contain neither). -/
+def GrammarBinding (resolve : List Bytes → Option Nat) (b : Binding) : Prop :=
+  ∃ t : Tmpl, t.Wf ∧ b.tmpl = t.render ∧ t.toks.length ≤ Gen.tokenCap ∧ t.Resolves resolve ∧ tmplAscii t
+
+/-- **the lexer fact is a theorem for the documented grammar**: the text of a canonical sub-pattern
+determines its tokens (`toksString_inj`), so every grammar binding obeys one and the same function
+`gCanon` from pattern text to pattern tokens — the hypothesis `BindingG` of the theorems above. -/
+theorem grammar_binding_obeys_g (resolve : List Bytes → Option Nat) (b : Binding) (h : GrammarBinding resolve b) :
+    BindingG Gen.tokenCap gCanon resolve b := by
+  obtain ⟨t, ht, hb, hcap, hres, ha⟩ := h
+  exact grammar_bindingG Gen.tokenCap resolve b t ht hb hcap hres ha
+
+/-- `accepted_rules_are_routed` for rule sets of the documented grammar — no hypothesis about the lexer left. -/
+theorem grammar_rules_are_routed (conv) (hconv : ∀ f t, conv f t = true)
+    (rs : List (Rule × Nat × (List Bytes → Option Nat))) (t : Node)
+    (hb : buildAll Gen.tokenCap rs .empty = .ok t)
+    (hgr : ∀ e ∈ rs, ∀ b ∈ e.1.bindings, GrammarBinding e.2.2 b)
+    (e) (he : e ∈ rs) (b : Binding) (hbm : b ∈ e.1.bindings) (verb : Bytes) (toks : List Tok)
+    (hr : Routed Gen.tokenCap e.2.2 b verb toks) :
+    ∃ m caps, search conv verb t toks = .found m caps :=
+  accepted_rules_are_routed conv hconv gCanon rs t hb
+    (fun e' he' b' hb' => grammar_binding_obeys_g e'.2.2 b' (hgr e' he' b' hb')) e he b hbm verb toks hr
+
+/-- `rule_order_independent` for rule sets of the documented grammar. -/
+theorem grammar_rule_order_independent
+    (rs1 rs2 : List (Rule × Nat × (List Bytes → Option Nat))) (hperm : rs1.Perm rs2)
+    (hn1 : ∀ e ∈ rs1, ∀ p ∈ e.1.additional, p.2 = false)
+    (hslots : (stepsOf rs1).Pairwise (DistinctSlots Gen.tokenCap))
+    (hgr : ∀ e ∈ rs1, ∀ b ∈ e.1.bindings, GrammarBinding e.2.2 b)
+    (t : Node) (h : buildAll Gen.tokenCap rs1 .empty = .ok t) (conv) (verb : Bytes) (toks : List Tok) :
+    ∃ t2, buildAll Gen.tokenCap rs2 .empty = .ok t2 ∧ search conv verb t2 toks = search conv verb t toks := by
+  refine rule_order_independent gCanon rs1 rs2 hperm hn1 hslots ?_ t h conv verb toks
+  intro s hs
+  simp only [stepsOf, List.mem_flatMap, ruleSteps, List.mem_map] at hs
+  obtain ⟨e, he, b, hb, rfl⟩ := hs
+  exact grammar_binding_obeys_g e.2.2 b (hgr e he b hb)
+
 -- non-vacuity: GET "/v/{a=s/*}" and the request tokens of "/v/s/x"
 private def pu (c : Nat) : Rune := ⟨[UInt8.ofNat c], c, false, false, false, false⟩
 private def le (c : Nat) : Rune := ⟨[UInt8.ofNat c], c, true, true, true, true⟩
@@ -363,6 +403,46 @@ example : (stepsOf rsEx).Pairwise (DistinctSlots Gen.tokenCap) := by
   decide
 example : ∃ t, buildAll Gen.tokenCap rsEx .empty = .ok t ∧ buildAll Gen.tokenCap rsEx.reverse .empty = .ok t :=
   ⟨_, rfl, rfl⟩
+-- non-vacuity of GrammarBinding: bEx's template "/v/{a=s/*}" as a template of the grammar
+private def tEx : Tmpl :=
+  { slash := pu 47, first := .simple (.lit [le 118]),
+    more := [(pu 47, .var { lbrace := pu 123, ident := [le 97], dotted := [],
+                            sub := some (pu 61, .lit [le 115], [(pu 47, .star (pu 42))]), rbrace := pu 125 })],
+    verb := none }
+example : bEx.tmpl = tEx.render ∧ tEx.toks.length ≤ Gen.tokenCap ∧ tEx.Resolves (fun _ => some 0) := by
+  refine ⟨by decide, by decide, trivial, ?_⟩
+  intro p hp
+  simp only [tEx, List.mem_singleton] at hp
+  subst hp
+  rfl
+example : tmplAscii tEx := by
+  refine ⟨⟨by decide, ?_⟩, ?_⟩
+  · intro r hr
+    simp only [List.mem_singleton] at hr
+    subst hr
+    exact ⟨by decide, by decide⟩
+  · intro p hp
+    simp only [tEx, List.mem_singleton] at hp
+    subst hp
+    refine ⟨⟨by decide, ?_⟩, ?_⟩
+    · intro r hr
+      simp only [List.mem_singleton] at hr
+      subst hr
+      exact ⟨by decide, by decide⟩
+    · intro q hq
+      simp only [List.mem_singleton] at hq
+      subst hq
+      exact ⟨by decide, (by decide : (pu 42).bytes = [42])⟩
+example : tEx.Wf := by
+  refine ⟨by decide, ⟨⟨_, _, rfl, rfl⟩, by decide⟩, ?_, trivial⟩
+  intro p hp
+  simp only [tEx, List.mem_singleton] at hp
+  subst hp
+  refine ⟨by decide, by decide, by decide, by decide, by decide, ⟨by decide, ⟨⟨_, _, rfl, rfl⟩, by decide⟩, ?_⟩⟩
+  intro q hq
+  simp only [List.mem_singleton] at hq
+  subst hq
+  exact ⟨by decide, (by decide : Punct cStar (pu 42))⟩
 example : BindingG Gen.tokenCap (fun _ => [⟨.literal, [115]⟩, ⟨.slash, [47]⟩, ⟨.star, [42]⟩]) (fun _ => some 0) bEx := by
   intro es he e hmem
   have h2 : bindingEdges Gen.tokenCap (fun _ => some 0) bEx = some esEx := by decide
@@ -390,3 +470,6 @@ end Larking.Props.C02
 #print axioms Larking.Props.C02.registration_order_independent
 #print axioms Larking.Props.C02.rule_order_independent
 #print axioms Larking.Props.C02.two_bindings_commute
+#print axioms Larking.Props.C02.grammar_binding_obeys_g
+#print axioms Larking.Props.C02.grammar_rules_are_routed
+#print axioms Larking.Props.C02.grammar_rule_order_independent
